@@ -36,6 +36,9 @@ def _effects(resolver, file_info):
             raise KeyError("undefined macro inside the callee")
         if outcome == -2:
             raise SymbolNotDefined("undefined symbol inside the callee")
+        if outcome == -3:
+            # the interpreter's own limit on nested expansions (a macro applying itself without end): it ENDS the assembly, nobody continues after it
+            raise RecursionError("maximum recursion depth exceeded inside the callee")
         raise RuntimeError("the callee fails")
     return fresh_list("code", 0)
 
